@@ -501,14 +501,26 @@ def spec_neutral(ctx: Ctx) -> None:
             if not (recv == "spec" or recv.endswith(".spec") or recv.endswith("spec")):
                 continue
             n += 1
-            if f.qual in NEUTRAL_READERS:
-                ctx.ob(f, x, True, f"{f.name} is a designated reader of spec.{x.attr}", sel=f"neutral:{x.attr}", nontrivial=False)
+            if f.qual in NEUTRAL_READERS or _only_called_by_readers(repo, f):
+                ctx.ob(f, x, True, f"{f.name} is a designated reader of spec.{x.attr} (or a private helper called only by one)", sel=f"neutral:{x.attr}", nontrivial=False)
                 continue
             # must be directly a keyword-argument value of a call
             pm = _parent_of(f, x)
             ok = isinstance(pm, ast.keyword)
             ctx.ob(f, x, ok, f"`{recv}.{x.attr}` in {f.name} may only be forwarded as a keyword argument (storage construction)" + ("" if ok else " — it is used in an expression/branch: acceptance or the operation graph could depend on where data is stored"), sel=f"neutral:{x.attr}")
     ctx.need(n >= 4, "spec setting reads not found")
+
+
+def _only_called_by_readers(repo: Repo, f: Def, depth: int = 2) -> bool:
+    """f is a private function all of whose callers (in the package) are designated readers
+    (or such helpers themselves): extracting a helper does not widen who reads the setting"""
+    if not f.name.startswith("_") or depth <= 0:
+        return False
+    callers = set()
+    for d, c, ts in repo.all_call_sites():
+        if d is not None and any(t.kind == "def" and t.ref is f for t in ts):
+            callers.add(d.qual)
+    return bool(callers) and all(q in NEUTRAL_READERS or _only_called_by_readers(repo, repo.defs[q], depth - 1) for q in callers if q in repo.defs) and all(q in repo.defs for q in callers)
 
 
 def _parent_of(f: Def, node: ast.AST):
